@@ -6,7 +6,7 @@
    (Model/Backend.v).  A publication records the revision and the cache version it was computed
    from; [last_pub u outs acc] is the most recent one for [u]. *)
 From Coq Require Import ZArith.
-From VL Require Import Lib.Bytes Model.Backend Proofs.BackendProofs.
+From VL Require Import Lib.Bytes Model.Backend Proofs.BackendProofs Proofs.MultiDocProofs.
 
 (* for every event sequence on any number of documents: each open (supported, enabled) document's most
    recent publication was computed from its latest text - never from an earlier revision *)
@@ -27,6 +27,35 @@ Theorem C13_single_document_converges :
   let '(s', outs) := run c s evs in Converged u s' (last_pub u outs lastp).
 Proof. exact single_document_converges. Qed.
 
+(* any number of documents, any order of edits, closes and registry replies: as long as no document is given a text
+   whose uncached dependency another open document also depends on or has in flight (clean_run; the complement is the
+   open finding below), every open document's last publication was computed from its latest text and not before its
+   dependency became cached ([since_run] is the ghost record of when each package became cached) *)
+Theorem C13_documents_current :
+  forall c cached0 evs, c_has_store c = true -> clean_run c (init_state cached0) evs ->
+  forall u t, doc_rev (fst (run c (init_state cached0) evs)) u = Some t -> c_supported c u = true -> c_enabled c u = true ->
+  exists P, last_pub u (snd (run c (init_state cached0) evs)) None = Some P /\ pb_rev P = t /\
+    forall p n, pkg_of c t = Some p -> In (p, n) (since_run c (init_state cached0) evs []) -> n <= pb_cver P.
+Proof. exact documents_current. Qed.
+(* the run of the open finding is outside the hypothesis ... *)
+Lemma C13_two_documents_not_clean :
+  let c := mkCfg (fun _ => true) (fun _ => true) true (fun _ => Some 7) in
+  ~ clean_run c (init_state []) [EvOpen 1 10; EvOpen 2 20; EvReply 7 RVersions].
+Proof.
+  intros c [_ [[H|[_ H]] _]]; [discriminate|]. specialize (H 1 (or_introl eq_refl)). discriminate.
+Qed.
+(* ... and two documents with different dependencies are inside it: both are re-published when their packages arrive *)
+Example C13_ex_two_documents :
+  let c := mkCfg (fun _ => true) (fun _ => true) true (fun t => Some (t / 10)) in
+  let evs := [EvOpen 1 10; EvOpen 2 20; EvReply 2 RVersions; EvChange 1 11; EvReply 1 RVersions] in
+  clean_run c (init_state []) evs /\
+  last_pub 1 (snd (run c (init_state []) evs)) None = Some (mkPub 1 11 2) /\
+  last_pub 2 (snd (run c (init_state []) evs)) None = Some (mkPub 2 20 1) /\
+  since_run c (init_state []) evs [] = [(1, 2); (2, 1)].
+Proof.
+  split; [apply clean_run_b_sound; vm_compute; reflexivity|vm_compute; repeat split].
+Qed.
+
 (* open finding: with two documents that share an uncached package, the second document's task finds
    the package claimed, fetches nothing and never re-publishes: the second document does not converge *)
 Lemma C13_two_documents_refuted :
@@ -45,3 +74,4 @@ Proof. vm_compute. split; [reflexivity|]. split; [intros f []|]. intros t [= <-]
 
 Print Assumptions C13_last_publication_is_current.
 Print Assumptions C13_single_document_converges.
+Print Assumptions C13_documents_current.
